@@ -27,7 +27,8 @@ Definition Inc (pre dec : bool) (n : Z) : expr := EInc pre dec (Z.to_nat n).
 Definition Lg (k : Z) (e : expr) : expr := ELog k e.
 
 Inductive case :=
-| CExpr (vs : list value) (e : expr) (status : Z) (r : oval) (vars : list oval) (lg : list Z).
+| CExpr (vs : list value) (e : expr) (status : Z) (r : oval) (vars : list oval) (lg : list Z)
+| CIntStr (n : Z) (obs : list Z).   (* ToString of a number value that otto holds as a Go integer *)
 
 (* finding classes, attributed by switching otto's deviations on one after the other:
    1 ToInt32/ToUint32/ToUint16 through int64 (|x| >= 2^63)
@@ -35,28 +36,29 @@ Inductive case :=
    3 ToNumber(string) rejects hex literals >= 2^63
    4 string < on UTF-8 bytes instead of UTF-16 units
    5 a + b reads b after ToPrimitive(a)
-   6 x op= e reads x after evaluating e *)
+   6 (x op= e read x after evaluating e: repaired in /repo by commit 3657e0a, class no longer produced)
+   7 ToString of a number held as a Go integer prints every integer digit *)
 Definition overaccept (s : list Z) : numlit :=
   match string_to_number s with NLNaN => model_str2num s | r => r end.
 
 Definition h1 : dialect := {|
-  d_int32 := m_to_int32; d_uint32 := m_to_uint32; d_uint16 := m_to_uint16; d_integer := m_to_integer;
+  d_int32 := m_to_int32; d_uint32 := m_to_uint32; d_uint16 := m_to_uint16; d_integer := m_to_integer; d_div := m_divide;
   d_str2num := string_to_number; d_strlt := units_lt;
   d_plus_late := false; d_cmp_late := false; d_otto_cmp := true |}.
 Definition h2 : dialect := {|
-  d_int32 := m_to_int32; d_uint32 := m_to_uint32; d_uint16 := m_to_uint16; d_integer := m_to_integer;
+  d_int32 := m_to_int32; d_uint32 := m_to_uint32; d_uint16 := m_to_uint16; d_integer := m_to_integer; d_div := m_divide;
   d_str2num := overaccept; d_strlt := units_lt;
   d_plus_late := false; d_cmp_late := false; d_otto_cmp := true |}.
 Definition h3 : dialect := {|
-  d_int32 := m_to_int32; d_uint32 := m_to_uint32; d_uint16 := m_to_uint16; d_integer := m_to_integer;
+  d_int32 := m_to_int32; d_uint32 := m_to_uint32; d_uint16 := m_to_uint16; d_integer := m_to_integer; d_div := m_divide;
   d_str2num := model_str2num; d_strlt := units_lt;
   d_plus_late := false; d_cmp_late := false; d_otto_cmp := true |}.
 Definition h4 : dialect := {|
-  d_int32 := m_to_int32; d_uint32 := m_to_uint32; d_uint16 := m_to_uint16; d_integer := m_to_integer;
+  d_int32 := m_to_int32; d_uint32 := m_to_uint32; d_uint16 := m_to_uint16; d_integer := m_to_integer; d_div := m_divide;
   d_str2num := model_str2num; d_strlt := m_str_lt;
   d_plus_late := false; d_cmp_late := false; d_otto_cmp := true |}.
 Definition h5 : dialect := {|
-  d_int32 := m_to_int32; d_uint32 := m_to_uint32; d_uint16 := m_to_uint16; d_integer := m_to_integer;
+  d_int32 := m_to_int32; d_uint32 := m_to_uint32; d_uint16 := m_to_uint16; d_integer := m_to_integer; d_div := m_divide;
   d_str2num := model_str2num; d_strlt := m_str_lt;
   d_plus_late := true; d_cmp_late := false; d_otto_cmp := true |}.
 
@@ -78,5 +80,12 @@ Definition verdict (c : case) : Z * Z :=
       | Some m, Some s =>
           judge obs_eqb (st, r, vars, lg) m s (if obs_eqb m s then 0 else class_of vs e)
       | _, _ => declined
+      end
+  | CIntStr n obs =>
+      let d := of_int n in
+      if nts_declined d then declined else
+      match number_to_string d with
+      | Some s => judge zlist_eqb obs (int_to_string n) s 7
+      | None => declined
       end
   end.
